@@ -8,10 +8,12 @@ namespace c17 {
 //   1 "generators"   only generators
 //   2 "minimized"    both descriptions up to date and minimized
 //   3 "pending"      minimized, then the last constraint added (pending / not minimized)
+//   4 "pending_generator"    all generators but the last, minimized, then the last generator added (pending generator)
+//   5 "redundant_generators" only generators, not minimized, with redundant points (midpoints) appended
 template <class PH>
 struct PolyDomain : Domain {
-  PolyDomain(const std::string& nm) { name = nm; kind = K_ROWS; modes = 4; has_wrap = true; has_cip = true; }
-  const char* mode_name(int m) const { return m == 0 ? "constraints" : m == 1 ? "generators" : m == 2 ? "minimized" : "pending"; }
+  PolyDomain(const std::string& nm) { name = nm; kind = K_ROWS; modes = 6; extra_from = 4; has_wrap = true; has_cip = true; }
+  const char* mode_name(int m) const { return m == 0 ? "constraints" : m == 1 ? "generators" : m == 2 ? "minimized" : m == 3 ? "pending" : m == 4 ? "pending_generator" : "redundant_generators"; }
   Subject* build(const Built& b, int mode) const {
     SimpleSubject<PH>* s = new SimpleSubject<PH>(b.n);
     const PPL::Constraint_System& cs = b.cs[0];
@@ -19,6 +21,29 @@ struct PolyDomain : Domain {
       if (b.gs[0].begin() == b.gs[0].end()) { PH t(b.n, PPL::EMPTY); s->d.m_swap(t); }
       else { PH t(b.gs[0]); s->d.m_swap(t); }
       return s;
+    }
+    if (mode == 4 || mode == 5) {
+      std::vector<PPL::Generator> gens, pts;
+      for (PPL::Generator_System::const_iterator i = b.gs[0].begin(), e = b.gs[0].end(); i != e; ++i) { if (i->is_point()) pts.push_back(*i); else gens.push_back(*i); }
+      if (pts.empty()) { PH t(b.n, PPL::EMPTY); s->d.m_swap(t); return s; }
+      if (mode == 4) {
+        // points first: the last generator (a ray / line if there is one, else a point) is added after minimization
+        std::vector<PPL::Generator> all(pts); all.insert(all.end(), gens.begin(), gens.end());
+        PPL::Generator_System g0; for (size_t i = 0; i + 1 < all.size(); ++i) g0.insert(all[i]);
+        if (all.size() == 1) g0.insert(all[0]);
+        PH t(g0); (void)t.minimized_constraints(); (void)t.minimized_generators();
+        if (all.size() > 1) t.add_generator(all.back());
+        s->d.m_swap(t); return s;
+      }
+      PPL::Generator_System g1(b.gs[0]);
+      for (size_t i = 0; i + 1 < pts.size() && i < 3; ++i) {
+        // midpoint of two vertices: (e1/d1 + e2/d2)/2
+        PPL::Linear_Expression e = PPL::Linear_Expression(pts[i].expression()) * pts[i + 1].divisor() + PPL::Linear_Expression(pts[i + 1].expression()) * pts[i].divisor();
+        if (b.n > 0) e += 0 * PPL::Variable(b.n - 1);
+        g1.insert(PPL::Generator::point(e, 2 * pts[i].divisor() * pts[i + 1].divisor()));
+      }
+      g1.insert(pts[0]);
+      PH t(g1); s->d.m_swap(t); return s;
     }
     if (mode == 3) {
       std::vector<PPL::Constraint> rows;
@@ -53,13 +78,18 @@ struct PSSubject : Subject {
   bool cip() const { return d.contains_integer_point(); }
 };
 struct PSDomain : Domain {
-  PSDomain() { name = "Pointset_Powerset<C_Polyhedron>"; kind = K_POWERSET; modes = 2; has_wrap = true; has_cip = true; }
-  const char* mode_name(int m) const { return m == 0 ? "disjuncts_from_constraints" : "disjuncts_from_generators"; }
+  PSDomain() { name = "Pointset_Powerset<C_Polyhedron>"; kind = K_POWERSET; modes = 3; extra_from = 2; has_wrap = true; has_cip = true; }
+  const char* mode_name(int m) const { return m == 0 ? "disjuncts_from_constraints" : m == 1 ? "disjuncts_from_generators" : "minimized_disjuncts_plus_duplicate_not_reduced"; }
   Subject* build(const Built& b, int mode) const {
     PSSubject* s = new PSSubject(b.n);
     for (size_t i = 0; i < b.cs.size(); ++i) {
       if (mode == 0) { PPL::C_Polyhedron p(b.n, PPL::UNIVERSE); p.refine_with_constraints(b.cs[i]); s->d.add_disjunct(p); }
+      else if (mode == 2) { PPL::C_Polyhedron p(b.n, PPL::UNIVERSE); p.refine_with_constraints(b.cs[i]); (void)p.minimized_generators(); (void)p.minimized_constraints(); if (!p.is_empty()) s->d.add_disjunct(p); }
       else if (b.gs[i].begin() != b.gs[i].end()) { PPL::C_Polyhedron p(b.gs[i]); s->d.add_disjunct(p); }
+    }
+    if (mode == 2 && !b.cs.empty()) {
+      // the first disjunct once more, from its generators: the sequence is not omega-reduced
+      if (b.gs[0].begin() != b.gs[0].end()) { PPL::C_Polyhedron p(b.gs[0]); s->d.add_disjunct(p); }
     }
     return s;
   }
@@ -81,17 +111,85 @@ struct GridSubject : Subject {
   void drop_vars(const PPL::Variables_Set& vs, PPL::Complexity_Class cc) { d.drop_some_non_integer_points(vs, cc); }
   bool cip() const { return d.contains_integer_point(); }
 };
-//   0 "congruences"  only congruences;  1 "generators" built from the grid generators of a twin;
-//   2 "minimized"    congruences, then both minimized descriptions requested
+//   0 "congruences"      only congruences
+//   1 "generators"       built from the (minimal) grid generators of a twin: generators up to date, not marked minimized
+//   2 "minimized"        congruences, then both minimized descriptions requested
+//   3 "several_points"   built from a NON-minimal generator system: every parameter q replaced by the point p + q
+//   4 "joined"           upper_bound_assign of two grids (the lattice without its last parameter, and its translate by it)
+//   5 "added_point"      the lattice without its last parameter, minimized, then add_grid_generator(grid_point(p + q))
+//   6 "added_congruence" all congruences but the last, minimized, then the last congruence added (generators out of date)
+struct GridParts { bool empty; PPL::Linear_Expression pe; PPL::Coefficient pd; std::vector<PPL::Grid_Generator> params, lines; };
+static GridParts grid_parts(const Built& b) {
+  GridParts g; g.empty = false; g.pd = 1;
+  PPL::Grid tw(b.n, PPL::UNIVERSE); tw.add_congruences(b.cgs);
+  if (tw.is_empty()) { g.empty = true; return g; }
+  const PPL::Grid_Generator_System& gs = tw.minimized_grid_generators();
+  for (PPL::Grid_Generator_System::const_iterator i = gs.begin(), e = gs.end(); i != e; ++i) {
+    if (i->is_point()) { g.pe = PPL::Linear_Expression(i->expression()); g.pd = i->divisor(); }
+    else if (i->is_parameter()) g.params.push_back(*i);
+    else g.lines.push_back(*i);
+  }
+  return g;
+}
+// the point p + q
+static PPL::Grid_Generator shifted_point(const GridParts& g, const PPL::Grid_Generator& q, int n) {
+  PPL::Linear_Expression e = g.pe * q.divisor() + PPL::Linear_Expression(q.expression()) * g.pd;
+  if (n > 0) e += 0 * PPL::Variable(n - 1);
+  return PPL::grid_point(e, g.pd * q.divisor());
+}
+static PPL::Grid_Generator base_point(const GridParts& g, int n) {
+  PPL::Linear_Expression e = g.pe; if (n > 0) e += 0 * PPL::Variable(n - 1);
+  return PPL::grid_point(e, g.pd);
+}
 struct GridDomain : Domain {
-  GridDomain() { name = "Grid"; kind = K_GRID; modes = 3; has_wrap = true; has_cip = true; }
-  const char* mode_name(int m) const { return m == 0 ? "congruences" : m == 1 ? "generators" : "minimized"; }
+  GridDomain() { name = "Grid"; kind = K_GRID; modes = 7; has_wrap = true; has_cip = true; ignores_thr = true; }
+  const char* mode_name(int m) const {
+    static const char* nm[] = { "congruences", "generators", "minimized", "several_points", "joined", "added_point", "added_congruence" };
+    return nm[m];
+  }
   Subject* build(const Built& b, int mode) const {
     GridSubject* s = new GridSubject(b.n);
     if (mode == 1) {
       PPL::Grid tw(b.n, PPL::UNIVERSE); tw.add_congruences(b.cgs);
       if (tw.is_empty()) { PPL::Grid t(b.n, PPL::EMPTY); s->d.m_swap(t); }
       else { PPL::Grid t(tw.grid_generators()); s->d.m_swap(t); }
+      return s;
+    }
+    if (mode == 3 || mode == 4 || mode == 5) {
+      GridParts g = grid_parts(b);
+      if (g.empty) { PPL::Grid t(b.n, PPL::EMPTY); s->d.m_swap(t); return s; }
+      if (mode == 3) {
+        PPL::Grid_Generator_System gs;
+        gs.insert(base_point(g, b.n));
+        for (size_t i = 0; i < g.params.size(); ++i) gs.insert(shifted_point(g, g.params[i], b.n));
+        for (size_t i = 0; i < g.lines.size(); ++i) gs.insert(g.lines[i]);
+        PPL::Grid t(gs); s->d.m_swap(t); return s;
+      }
+      // the lattice without its last parameter ...
+      PPL::Grid_Generator_System g0; g0.insert(base_point(g, b.n));
+      for (size_t i = 0; i + 1 < g.params.size(); ++i) g0.insert(g.params[i]);
+      for (size_t i = 0; i < g.lines.size(); ++i) g0.insert(g.lines[i]);
+      PPL::Grid t(g0);
+      if (mode == 4) {
+        // ... joined with its translate (or with itself when there is no parameter)
+        PPL::Grid_Generator_System g1;
+        g1.insert(g.params.empty() ? base_point(g, b.n) : shifted_point(g, g.params.back(), b.n));
+        for (size_t i = 0; i + 1 < g.params.size(); ++i) g1.insert(g.params[i]);
+        for (size_t i = 0; i < g.lines.size(); ++i) g1.insert(g.lines[i]);
+        PPL::Grid u(g1);
+        t.upper_bound_assign(u);
+      } else {
+        (void)t.minimized_grid_generators(); (void)t.minimized_congruences();
+        t.add_grid_generator(g.params.empty() ? base_point(g, b.n) : shifted_point(g, g.params.back(), b.n));
+      }
+      s->d.m_swap(t); return s;
+    }
+    if (mode == 6) {
+      std::vector<PPL::Congruence> rows;
+      for (PPL::Congruence_System::const_iterator i = b.cgs.begin(), e = b.cgs.end(); i != e; ++i) rows.push_back(*i);
+      for (size_t i = 0; i + 1 < rows.size(); ++i) s->d.add_congruence(rows[i]);
+      (void)s->d.minimized_grid_generators(); (void)s->d.minimized_congruences();
+      if (!rows.empty()) s->d.add_congruence(rows.back());
       return s;
     }
     s->d.add_congruences(b.cgs);
@@ -120,10 +218,22 @@ struct ProdSubject : Subject {
   bool cip() const { return false; }
 };
 struct ProdDomain : Domain {
-  ProdDomain() { name = "Constraints_Product<C_Polyhedron,Grid>"; kind = K_PRODUCT; modes = 1; has_wrap = false; has_cip = false; }
-  const char* mode_name(int) const { return "refined"; }
-  Subject* build(const Built& b, int) const {
+  ProdDomain() { name = "Constraints_Product<C_Polyhedron,Grid>"; kind = K_PRODUCT; modes = 2; has_wrap = false; has_cip = false; }
+  const char* mode_name(int m) const { return m == 0 ? "refined" : "refined_components_from_generators"; }
+  Subject* build(const Built& b, int mode) const {
     ProdSubject* s = new ProdSubject(b.n);
+    if (mode == 1) {
+      // the grid component comes from a non-minimal generator system (several points), the polyhedron from it + constraints
+      GridParts g = grid_parts(b);
+      if (g.empty) { PROD t(b.n, PPL::EMPTY); s->d.m_swap(t); return s; }
+      PPL::Grid_Generator_System gs;
+      gs.insert(base_point(g, b.n));
+      for (size_t i = 0; i < g.params.size(); ++i) gs.insert(shifted_point(g, g.params[i], b.n));
+      for (size_t i = 0; i < g.lines.size(); ++i) gs.insert(g.lines[i]);
+      PPL::Grid gr(gs);
+      PROD t(gr); t.refine_with_constraints(b.cs[0]);
+      s->d.m_swap(t); return s;
+    }
     s->d.refine_with_constraints(b.cs[0]);
     s->d.refine_with_congruences(b.cgs);
     return s;
